@@ -53,6 +53,12 @@ static std::string dump_qr(const QR &qr) {
                     std::to_string(qr.get_reorth_count()) + ' ' + vp::f2h(qr.get_min_eig()) + ' ' +
                     vp::f2h(qr.get_max_eig());
     s += " | " + pairs_fwd(qr) + " | " + pairs_rev(qr);
+    // ring_next / ring_prev of every storage index
+    s += " | " + std::to_string(2 * qr.m());
+    for (index_t i = 0; i < qr.m(); ++i)
+        s += ' ' + std::to_string(qr.ring_next(i));
+    for (index_t i = 0; i < qr.m(); ++i)
+        s += ' ' + std::to_string(qr.ring_prev(i));
     mat R = qr.get_R(); // K × K, upper triangular view of the ring-ordered columns
     mat Q = qr.get_Q(); // n × K
     s += " | " + std::to_string(K * K);
